@@ -77,15 +77,20 @@ func c33UserEvents(r *evid.Run, t *testing.T, ci int, rng *rand.Rand) {
 		if err != nil {
 			if L > c33Hard {
 				counts["create_refused_limit_above_9KiB"]++
-			} else {
-				setupErr = err.Error()
+				// the operator raises the limit on the running node instead (the configuration object
+				// stays with the caller): the 9 KiB cap still applies to what is sent
+				nd, err = cluster.Start(nw, cluster.Opts{Name: "n1", IP: "10.33.0.1", Profile: "passive", Mutate: func(c *serf.Config) { c.UserEventSizeLimit = 512 }})
+				if err == nil {
+					nd.Conf.UserEventSizeLimit = L
+					counts["limit_raised_above_9KiB_on_the_running_node"]++
+				}
 			}
-			return
+			if err != nil {
+				setupErr = err.Error()
+				return
+			}
 		}
 		defer nd.Close()
-		if L > c33Hard {
-			counts["create_accepted_limit_above_9KiB"]++
-		}
 		if startLT > 0 { // move the event clock so that the Lamport time encodes wider
 			nd.NotifyMsg(wire.Encode(wire.UserEvent, &wire.MsgUserEvent{LTime: startLT, Name: "warm", Payload: []byte("x")}))
 		}
